@@ -1,0 +1,37 @@
+//go:build verif
+
+package ratelimit
+
+import "sort"
+
+// VerifKeys returns the sources currently tracked by the limiter, sorted. Verification hook: read-only.
+func (tl *TokenLimiter) VerifKeys() []string {
+	tl.mutex.Lock()
+	defer tl.mutex.Unlock()
+	return tl.bucketSets.VerifKeys()
+}
+
+// VerifAvail returns, for a tracked source, the available tokens of its buckets ordered by period and the
+// entry's expiry (Unix seconds). Verification hook: read-only.
+func (tl *TokenLimiter) VerifAvail(source string) (avail []int64, expiry int, ok bool) {
+	tl.mutex.Lock()
+	defer tl.mutex.Unlock()
+	v, exp, ok := tl.bucketSets.VerifPeek(source)
+	if !ok {
+		return nil, 0, false
+	}
+	set := v.(*TokenBucketSet)
+	periods := make([]int64, 0, len(set.buckets))
+	for p := range set.buckets {
+		periods = append(periods, int64(p))
+	}
+	sort.Slice(periods, func(i, j int) bool { return periods[i] < periods[j] })
+	for _, p := range periods {
+		for q, b := range set.buckets {
+			if int64(q) == p {
+				avail = append(avail, b.availableTokens)
+			}
+		}
+	}
+	return avail, exp, true
+}
